@@ -10,7 +10,7 @@
      _cmath/isnan.hpp, isinf.hpp   the comparison fallbacks
      _cmath/rint.hpp, lrint.hpp    detail::rint_fallback, detail::lrint_fallback
      _cmath/fma.hpp         x * y + z
-     _3rd_party/gcem/gcem_incl/{floor,ceil,trunc,round,find_whole,abs,sgn,is_nan,is_inf,is_finite}.hpp
+     _3rd_party/gcem/gcem_incl/{floor,ceil,trunc,round,abs,sgn,is_nan,is_inf,is_finite}.hpp
    The run-time side (compiler builtins, libc) is in Spec.v, modelled by its specification.
    Conventions: unsigned arithmetic wraps (wrapu), signed arithmetic is checked, a read outside
    the buffer is UB OutOfBounds, a floating->integer conversion out of range is UB.  Characters
@@ -231,21 +231,22 @@ Definition ct_trunc (f : fmt) (x : fval) : res fval :=
   else if fge (gcem_abs x) (flimit f) then Ok x
   else gcem_trunc_int f x.
 
-(* find_whole(x) = abs(x - floor_check(x)) >= 0.5 ? llint(floor_check(x) + sgn(x)) : llint(floor_check(x)) *)
-Definition gcem_find_whole (f : fmt) (x : fval) : res Z :=
+(* round_int(x) = abs(x - floor_check(x)) >= 0.5 ? floor_check(x) + T(sgn(x)) : floor_check(x)
+   (computed in T since the fix: commit; find_whole, which converts to long long, is no longer used) *)
+Definition gcem_round_int (f : fmt) (x : fval) : res fval :=
   do fl <- gcem_floor_check f x;
   if fge (gcem_abs (fsub f x fl)) fhalf
-  then to_llint (fadd f fl (of_int f (gcem_sgn x)))
-  else to_llint fl.
+  then Ok (fadd f fl (of_int f (gcem_sgn x)))
+  else Ok fl.
 
-(* round_check: sgn(x) * round_int(abs(x)),  round_int(x) = T(find_whole(x)) *)
+(* round_check: sgn(x) * round_int(abs(x)) *)
 Definition ct_round (f : fmt) (x : fval) : res fval :=
   if gcem_is_nan x then Ok qnan
   else if negb (gcem_is_finite x) then Ok x
   else if feq x (FZero false) then Ok x
   else if fge (gcem_abs x) (flimit f) then Ok x
-  else do w <- gcem_find_whole f (gcem_abs x);
-       Ok (fmul f (of_int f (gcem_sgn x)) (of_int f w)).
+  else do w <- gcem_round_int f (gcem_abs x);
+       Ok (fmul f (of_int f (gcem_sgn x)) w).
 
 (** * _cmath/rint.hpp: detail::rint_fallback, _cmath/lrint.hpp: detail::lrint_fallback *)
 Definition ct_rint (f : fmt) (x : fval) : res fval :=
@@ -268,3 +269,14 @@ Definition ct_lrint (f : fmt) (x : fval) : res Z :=
 
 (** * _cmath/fma.hpp in constant evaluation: x * y + z (two roundings) *)
 Definition ct_fma (f : fmt) (x y z : fval) : fval := fadd f (fmul f x y) z.
+
+(** * _cmath/fmod.hpp, remainder.hpp in constant evaluation: gcem::fmod (for both!)
+    any_nan -> NaN | not all_finite -> NaN | x - trunc(x / y) * y   with gcem::trunc.
+    x / 0 is not a constant expression: y = 0 is outside the domain of the harness tables.
+    Recorded findings KF-C13-fmod-ct-gcem and KF-C13-remainder-ct-is-fmod (C16 records the same code
+    as its KF-C16-gcem-fmod findings): at run time both functions call the exact builtins. *)
+Definition ct_fmod (f : fmt) (x y : fval) : res fval :=
+  if gcem_is_nan x || gcem_is_nan y then Ok qnan
+  else if negb (gcem_is_finite x && gcem_is_finite y) then Ok qnan
+  else do t <- ct_trunc f (fdiv f x y); Ok (fsub f x (fmul f t y)).
+Definition ct_remainder := ct_fmod.
